@@ -765,6 +765,7 @@ func runC12(c *Ctx) {
 	ruleSlab(c, p, "C12.slab")
 	ruleWaitGroupAdd(c, p, "C12.wg")
 	ruleNoStrayGoroutine(c, p, r, "C12.no-stray-goroutine")
+	ruleChannelHandoff(c, p, r, "C12.handoff")
 
 	// ---- C12.globals
 	rule = "C12.globals"
@@ -935,5 +936,80 @@ func ruleWaitGroupAdd(c *Ctx, p *core.Program, rule string) {
 		}
 	}
 	c.R.Count("go statements whose target uses a WaitGroup["+cfg+"]", n)
+	c.R.Floor(rule, cfg, n, 1)
+}
+
+// ruleChannelHandoff (C12): what one goroutine of Do hands to another over a channel is not memory it keeps writing.
+func ruleChannelHandoff(c *Ctx, p *core.Program, r *doRoles, rule string) {
+	c.R.Rule(rule, "a slice, map or pointer sent over a channel between the goroutines of Do (the column info of an INSERT, from the receive loop's callback to the sender) is built for the hand-off - append to a nil slice, a clone, a fresh make - and is not the captured variable the receive loop decodes into: Results are decoded into the same variable for every Data block, so a second header block rewrites the backing array while the sender is still ranging over the slice it was sent")
+	cfg := p.Cfg.Name
+	var fns []*ssa.Function
+	fns = append(fns, r.Do.AnonFuncs...)
+	for _, call := range core.Calls(r.Do) {
+		if h := core.StaticFn(call); h != nil && h.Blocks != nil && pkgOf(h) != nil && pkgOf(h).Path() == core.PkgCh {
+			fns = append(fns, h.AnonFuncs...)
+		}
+	}
+	n := 0
+	fresh := func(v ssa.Value) bool {
+		v = stripConv(v)
+		switch x := v.(type) {
+		case *ssa.MakeSlice, *ssa.MakeMap, *ssa.Alloc:
+			return true
+		case *ssa.Call:
+			if bi, ok := x.Call.Value.(*ssa.Builtin); ok && bi.Name() == "append" && len(x.Call.Args) > 0 {
+				if k, ok := stripConv(x.Call.Args[0]).(*ssa.Const); ok && k.Value == nil {
+					return true
+				}
+			}
+			if f := core.CalleeFunc(x); f != nil && f.Pkg() != nil && (f.Pkg().Path() == "slices" || f.Pkg().Path() == "maps") && f.Name() == "Clone" {
+				return true
+			}
+		}
+		return false
+	}
+	for _, fn := range fns {
+		for _, b := range fn.Blocks {
+			for _, in := range b.Instrs {
+				var sent []ssa.Value
+				switch x := in.(type) {
+				case *ssa.Send:
+					sent = append(sent, x.X)
+				case *ssa.Select:
+					for _, st := range x.States {
+						if st.Dir == types.SendOnly {
+							sent = append(sent, st.Send)
+						}
+					}
+				}
+				for _, v := range sent {
+					switch v.Type().Underlying().(type) {
+					case *types.Slice, *types.Map, *types.Pointer:
+					default:
+						continue
+					}
+					n++
+					key := core.FuncName(fn) + sprintf("/handoff#%d", n)
+					if fresh(v) {
+						c.R.Ok(rule, key, cfg, p.Pos(in.Pos()), "the value sent is built for the hand-off")
+						continue
+					}
+					shared := core.DependsOn(v, func(x ssa.Value) bool {
+						switch x.(type) {
+						case *ssa.FreeVar, *ssa.Global:
+							return true
+						}
+						return false
+					}, false)
+					if shared {
+						c.R.Bad(rule, key, cfg, p.Pos(in.Pos()), "the value sent is the captured variable itself (same backing array): the goroutine that sends it keeps decoding into it, the one that receives it reads it concurrently")
+					} else {
+						c.R.Unk(rule, key, cfg, p.Pos(in.Pos()), "origin of the value sent not recognised: "+v.String())
+					}
+				}
+			}
+		}
+	}
+	c.R.Count("reference values sent between the goroutines of Do", n)
 	c.R.Floor(rule, cfg, n, 1)
 }
